@@ -63,7 +63,8 @@ class LayerSim(Sim):
     PROBES = ["bn_momentum_none", "bn_no_affine", "bn_no_tracking", "bn_eval_nontrivial_stats", "bn_3d_input", "bn_4d_input", "bn_2d_input",
               "bn_train_after_eval", "bn_eval_repeat", "bn_f64", "dropout_p0", "dropout_p1", "dropout_train", "dropout_eval", "dropout_stub_hit",
               "dropout_backward_same_mask", "dropout_two_pending_outputs_same_shape", "dropout_huge_sample", "dropout_independence", "mode_by_propagation", "fault_in_bn_training_forward", "fault_in_bn_eval_forward",
-              "stats_overwritten", "bn_momentum_1"]
+              "stats_overwritten", "bn_momentum_1", "bn_forward_untracked", "affine_updated_in_place", "affine_updated_by_optimizer",
+              "bn_training_forward_rejected_single_value", "layer_replaced_after_use"]
     RULE = ("one run = 1-3 layers (BatchNorm1d/2d, Dropout; all constructor options) with a seeded history of mode switches (direct or by "
             "propagation), forwards, backwards, buffer overwrites and faults; distinct = layer configurations x mode/forward/backward sequence; "
             "non-trivial = at least two forwards on one layer with a mode switch or a buffer update in between")
@@ -103,20 +104,33 @@ class LayerSim(Sim):
             C = L["cfg"]["C"]
             if r < kn["p_mode"] + 0.10 and L["cfg"]["track"]:
                 return {"k": "set_stats", "lid": lid, "mean": enc(small_values(rng, (C,), np.float64, -2, 2)),
-                        "var": enc(np.abs(small_values(rng, (C,), np.float64, -2, 2)) + 0.25)}
+                        "var": enc(np.abs(small_values(rng, (C,), np.float64, -2, 2)) + 0.25), "how": rng.choice(["rebind", "in_place"])}
             if r < kn["p_mode"] + 0.18 and L["cfg"]["affine"]:
-                return {"k": "set_affine", "lid": lid, "w": enc(small_values(rng, (C,), np.float64, -2, 2, avoid_zero=True)), "b": enc(small_values(rng, (C,), np.float64, -2, 2))}
+                return {"k": "set_affine", "lid": lid, "w": enc(small_values(rng, (C,), np.float64, -2, 2, avoid_zero=True)), "b": enc(small_values(rng, (C,), np.float64, -2, 2)),
+                        "how": rng.choice(["rebind", "in_place", "sgd_step"])}
+            if r < kn["p_mode"] + 0.22 and L["holder"] is not None and L["nest"] in ("box", "box2"):
+                # the layer is replaced by a new one under the same name after the model has been used
+                return {"k": "replace_layer", "lid": lid}
             if L["kind"] == "bn1d":
                 shape = rng.choice([(rng.randint(2, 6), C), (rng.randint(1, 4), C, rng.randint(2, 5))])
+                if rng.random() < 0.08:
+                    shape = (1, C)           # one value per channel: a training forward with tracking cannot form the unbiased variance
             else:
                 shape = (rng.randint(1, 3), C, rng.randint(1, 3), rng.randint(2, 3))
+                if rng.random() < 0.05:
+                    shape = (1, C, 1, 1)
             dt = np.float64 if L["cfg"]["f64"] else np.float32
             x = small_values(rng, shape, dt, -3, 3) + dt(rng.choice([0, 0, 1.5, -4]))
-            ev = {"k": "forward", "lid": lid, "x": enc(x), "repeat": rng.random() < 0.3}
+            ev = {"k": "forward", "lid": lid, "x": enc(x), "repeat": rng.random() < 0.3,
+                  "ctx": "no_grad" if rng.random() < 0.3 else "none", "rg": rng.random() < 0.3}
             if kn["faulty"] and rng.random() < 0.15:
                 ev["fault"] = {"kind": rng.choice(["alloc", "interrupt", "exit"]), "at": 1}
+                if rng.random() < 0.6:
+                    ev["fault"].update(seam="line", at=rng.randint(1, 120))
             return ev
         # dropout
+        if r > 0.95 and L["holder"] is not None and L["nest"] in ("box", "box2"):
+            return {"k": "replace_layer", "lid": lid}
         if r < kn["p_mode"] + 0.15 and st.last.get(lid):
             # backward through ANY of the recent training outputs of this layer (not only the latest)
             which = rng.randrange(len(st.last[lid]))
@@ -169,7 +183,7 @@ class LayerSim(Sim):
                 holder.inner = inner
             else:
                 holder.layer = obj
-        st.L[ev["lid"]] = {"obj": obj, "kind": kind, "cfg": cfg, "model": model, "holder": holder, "mode": True, "switched": False, "n_fw": 0}
+        st.L[ev["lid"]] = {"obj": obj, "kind": kind, "cfg": cfg, "model": model, "holder": holder, "mode": True, "switched": False, "n_fw": 0, "nest": ev["nest"]}
 
     def _ev_mode(self, st, ev):
         L = st.L.get(ev["lid"])
@@ -196,8 +210,12 @@ class LayerSim(Sim):
             return
         obj, m = L["obj"], L["model"]
         dt = obj.running_mean.data.dtype
-        obj.running_mean.data = dec(ev["mean"]).astype(dt)
-        obj.running_var.data = dec(ev["var"]).astype(dt)
+        if ev.get("how") == "in_place":
+            obj.running_mean.data[...] = dec(ev["mean"]).astype(dt)
+            obj.running_var.data[...] = dec(ev["var"]).astype(dt)
+        else:
+            obj.running_mean.data = dec(ev["mean"]).astype(dt)
+            obj.running_var.data = dec(ev["var"]).astype(dt)
         m.rm = np.asarray(obj.running_mean.data, dtype=np.float64).copy()
         m.rv = np.asarray(obj.running_var.data, dtype=np.float64).copy()
         m.unknown = False
@@ -212,8 +230,23 @@ class LayerSim(Sim):
             return
         obj = L["obj"]
         dt = obj.weight.data.dtype
-        obj.weight.data = dec(ev["w"]).astype(dt)
-        obj.bias.data = dec(ev["b"]).astype(dt)
+        how = ev.get("how", "rebind")
+        if how == "in_place":
+            obj.weight.data[...] = dec(ev["w"]).astype(dt)
+            obj.bias.data[...] = dec(ev["b"]).astype(dt)
+            st.probes["affine_updated_in_place"] += 1
+        elif how == "sgd_step":
+            # the way an optimizer changes them: gradient = (old - new), lr = 1 -> p.data -= grad, same arrays
+            SG = st.SG
+            for p_, new_ in ((obj.weight, dec(ev["w"]).astype(dt)), (obj.bias, dec(ev["b"]).astype(dt))):
+                p_.grad = SG.Tensor((p_.data - new_).astype(dt))
+            opt = SG.optim.SGD([obj.weight, obj.bias], lr=1.0)
+            st.must("C13.harness_step", "SGD.step on the affine parameters", opt.step)
+            opt.zero_grad()
+            st.probes["affine_updated_by_optimizer"] += 1
+        else:
+            obj.weight.data = dec(ev["w"]).astype(dt)
+            obj.bias.data = dec(ev["b"]).astype(dt)
 
     def _buffers(self, obj):
         rm = getattr(obj, "running_mean", None)
@@ -230,22 +263,38 @@ class LayerSim(Sim):
         SG = st.SG
         obj, m, cfg = L["obj"], L["model"], L["cfg"]
         x = dec(ev["x"])
-        if x.ndim < 2 or x.shape[1] != cfg["C"] or x.size // x.shape[1] < 2:
+        if x.ndim < 2 or x.shape[1] != cfg["C"]:
             st.skipped += 1
             return
         training = L["mode"]
+        single = x.size // x.shape[1] < 2
+        if single and training and cfg["track"]:
+            return self._bn_single_value(st, ev, L, x)
         gamma = obj.weight.data.copy() if cfg["affine"] else None
         beta = obj.bias.data.copy() if cfg["affine"] else None
         before = self._buffers(obj)
         fault = ev.get("fault")
+        xin = SG.Tensor(x.copy(), requires_grad=bool(ev.get("rg")))
+        ctx = SG.sg.no_grad() if ev.get("ctx") == "no_grad" else None
+        if ctx is not None:
+            ctx.__enter__()
+            st.probes["bn_forward_untracked"] += 1
         if fault:
-            SEAM.arm(fault["kind"], fault["at"], "batch_norm")
+            if fault.get("seam") == "line":
+                SEAM.arm_spec(fault)
+            else:
+                SEAM.arm(fault["kind"], fault["at"], "batch_norm")
         try:
-            with quiet():
-                out = obj(SG.Tensor(x.copy()))
+            try:
+                with quiet():
+                    out = obj(xin)
+            finally:
+                SEAM.disarm()
+                if ctx is not None:
+                    ctx.__exit__(None, None, None)
         except SimFault:
             SEAM.disarm()
-            st.faults["bn_forward_" + fault["kind"]] += 1
+            st.faults[f"bn_forward_{fault.get('seam', 'kernel')}_{fault['kind']}"] += 1
             if training and cfg["track"]:
                 st.probes["fault_in_bn_training_forward"] += 1
                 m.unknown = True
@@ -300,11 +349,64 @@ class LayerSim(Sim):
             if after != before:
                 st.fail("C13.eval_changes_buffers", f"a {'training' if training else 'eval'} forward of a BatchNorm that must not update statistics changed a buffer", cfg=cfg)
             if ev.get("repeat"):
+                # the repetition takes the OTHER tracking status: tracked and untracked forwards are the same function of the input
                 with quiet():
-                    out2 = obj(SG.Tensor(x.copy()))
+                    if ev.get("ctx") == "no_grad":
+                        out2 = obj(SG.Tensor(x.copy(), requires_grad=True))
+                    else:
+                        with SG.sg.no_grad():
+                            out2 = obj(SG.Tensor(x.copy()))
                 st.probes["bn_eval_repeat"] += 1
                 if out2.data.tobytes() != out.data.tobytes() or self._buffers(obj) != before:
                     st.fail("C13.eval_not_deterministic", "repeating an eval-mode BatchNorm forward on the same input gave different bytes or changed a buffer")
+
+    def _bn_single_value(self, st, ev, L, x):
+        """training forward with tracking on ONE value per channel: the unbiased variance does not exist; the call is expected to be
+        rejected, and a rejected call leaves the running statistics alone.  (Not asserted: the batch counter after the rejected call -
+        the reference implementation also counts it; the model resynchronises the counter.)"""
+        SG = st.SG
+        obj, m = L["obj"], L["model"]
+        before = self._buffers(obj)
+        try:
+            with quiet():
+                obj(SG.Tensor(x.copy()))
+        except SimFault:
+            raise
+        except Exception as e:
+            st.probes["bn_training_forward_rejected_single_value"] += 1
+            st.kept = getattr(st, "kept", []) + [e]
+            if self._buffers(obj)[:2] != before[:2]:
+                st.fail("C13.rejected_forward_changes_stats", f"a BatchNorm training forward on a {x.shape} batch was rejected ({type(e).__name__}) "
+                        "but changed a running statistic: later eval forwards normalise with half-updated statistics", cfg=L["cfg"])
+            m.nbt = int(getattr(obj, "num_batches_tracked", m.nbt) or 0)
+            return
+        # accepted: nothing is documented about the value of an unbiased variance of one sample; resynchronise
+        st.notes["bn_single_value_training_forward_accepted"] += 1
+        m.unknown = True
+
+    def _ev_replace_layer(self, st, ev):
+        L = st.L.get(ev["lid"])
+        if L is None or L["holder"] is None or L.get("nest") not in ("box", "box2"):
+            st.skipped += 1
+            return
+        nn = st.SG.nn
+        cfg, kind = L["cfg"], L["kind"]
+        if kind == "dropout":
+            new = nn.Dropout(cfg["p"])
+            model = None
+        else:
+            cls = nn.BatchNorm1d if kind == "bn1d" else nn.BatchNorm2d
+            new = cls(cfg["C"], eps=cfg["eps"], momentum=cfg["momentum"], affine=cfg["affine"], track_running_stats=cfg["track"],
+                      dtype=np.float64 if cfg["f64"] else None)
+            model = BNModel(cfg["C"], cfg["eps"], cfg["momentum"], cfg["affine"], cfg["track"])
+        # the holder has been used before (its children were listed by a mode call)
+        L["holder"].train() if L["mode"] else L["holder"].eval()
+        parent = L["holder"].inner if L["nest"] == "box2" else L["holder"]
+        parent.layer = new
+        L["obj"], L["model"] = new, model
+        L["mode"] = True             # a new layer starts in training mode, whatever its parent's mode
+        st.last.pop(ev["lid"], None)
+        st.probes["layer_replaced_after_use"] += 1
 
     def _dropout_forward(self, st, ev, L):
         SG = st.SG
